@@ -61,6 +61,11 @@ def tasks(tier, seed):
         for bc in ('dirichlet', 'neumann', ('dirichlet', 'neumann'), ('neumann', 'dirichlet')):
             for reduce in (False, True):
                 T.append(('bc', d, order, bc if isinstance(bc, str) else list(bc), reduce))
+    # one-sided / biased / user-supplied stencils together with boundaries (Dirichlet data, default treatment)
+    for d, order, st in ((1, 1, 'upwind'), (1, 2, 'forward'), (1, 2, 'backward'), (1, 3, 'upwind'), (2, 2, 'forward'), (2, 1, 'backward'), (1, 4, 'upwind')):
+        T.append(('bc', d, order, 'dirichlet', False, st, None))
+    for d, steps in ((1, [-2, 0, 1]), (1, [-1, 0, 2, 3]), (2, [-1, 0, 1, 2]), (1, [-3, -1, 0, 1])):
+        T.append(('bc', d, len(steps) - d, 'dirichlet', False, None, steps))
     T.append(('kron', 2))
     T.append(('kron', 3))
     T.append(('grid',))
@@ -191,19 +196,19 @@ def periodic_case(rep, d, order, st, steps):
     rep.sample({'case': name, 'sizes': [width, width + 1, width + 3], 'free_variables': 'arbitrary grid function values in [-1,1]'}, limit=10)
 
 
-def bc_case(rep, d, order, bc, reduce):
+def bc_case(rep, d, order, bc, reduce, st='center', steps=None):
     bcn = bc if isinstance(bc, str) else '-'.join(bc)
-    name = f'bc/d{d}/o{order}/{bcn}/reduce{int(reduce)}'
+    name = f'bc/d{d}/o{order}/{bcn}/reduce{int(reduce)}' + ('' if st == 'center' and steps is None else f'/{st or "steps" + ",".join(map(str, steps))}')
     bct = bc if isinstance(bc, str) else tuple(bc)
     bcl = (bct, bct) if isinstance(bct, str) else bct
-    w, s = get_finite_difference_stencil(derivative=d, order=order, stencil_type='center')
-    width = len(s)
+    w, s = get_finite_difference_stencil(derivative=d, order=order, stencil_type=st, steps=(np.array(steps) if steps is not None else None))
+    width = int(max(max(s), 0) - min(min(s), 0)) + 1
     dx = 0.25
-    for size in (width, width + 2):
+    for size in (width + 1, width + 3):
         try:
-            A, b0 = real_matrix(d, order, 'center', None, size, 1, bct, bc_params={'val': 0.0, 'reduce': reduce}, dx=dx)
-            _, bL = real_matrix(d, order, 'center', None, size, 1, bct, bc_params=[{'val': 1.0, 'reduce': reduce}, {'val': 0.0, 'reduce': reduce}], dx=dx)
-            _, bR = real_matrix(d, order, 'center', None, size, 1, bct, bc_params=[{'val': 0.0, 'reduce': reduce}, {'val': 1.0, 'reduce': reduce}], dx=dx)
+            A, b0 = real_matrix(d, order, st, steps, size, 1, bct, bc_params={'val': 0.0, 'reduce': reduce}, dx=dx)
+            _, bL = real_matrix(d, order, st, steps, size, 1, bct, bc_params=[{'val': 1.0, 'reduce': reduce}, {'val': 0.0, 'reduce': reduce}], dx=dx)
+            _, bR = real_matrix(d, order, st, steps, size, 1, bct, bc_params=[{'val': 0.0, 'reduce': reduce}, {'val': 1.0, 'reduce': reduce}], dx=dx)
         except Exception as e:
             rep.extra['bc_not_constructible'] = rep.extra.get('bc_not_constructible', 0) + 1
             continue
@@ -211,10 +216,10 @@ def bc_case(rep, d, order, bc, reduce):
         # grid: unknowns at x_j = (j+1) dx, boundaries at 0 and (size+1) dx
         xs = [Fraction(j + 1) * frac(dx) for j in range(size)]
         xl, xr = Fraction(0), Fraction(size + 1) * frac(dx)
-        half = width // 2
+        lo, hi = max(0, -int(min(s))), max(0, int(max(s)))  # rows whose plain stencil reaches the boundary or beyond: the first lo and the last hi rows
         # exactness degree of the closure: below derivative + order with Dirichlet data; with Neumann data additionally <= the order of the one-sided
         # first-derivative closure; the 'reduce' treatment lowers the order near the boundary to 2 (i+1)
-        for row_set, label in ((range(half, size - half), 'interior'), (list(range(0, half)) + list(range(size - half, size)), 'boundary')):
+        for row_set, label in ((range(lo, size - hi), 'interior'), (list(range(0, lo)) + list(range(size - hi, size)), 'boundary')):
             rows = [j for j in row_set if 0 <= j < size]
             if not rows:
                 continue
